@@ -126,12 +126,11 @@ def history(k, ops, pars, vals):
             streams.append(s)
             with nt():
                 snaps.append((snap(s.query_ast), s.item_type))
-        for cs, sn in CB_STREAMS:      # streams made (and kept) by a callback during this step
-            if not any(cs is x for x in streams):
-                streams.append(cs)
-                snaps.append(sn)
         with nt():
-            for si, (st, (sn, it)) in enumerate(zip(streams, snaps)):
+            # streams made (and kept) by a callback are observed like every other live stream - but never chosen as the parent of a later
+            # step: inside a nested lambda the library hands the callback a stand-in stream that has no dataset to execute on
+            watched = list(zip(streams, snaps)) + [(cs, sn) for cs, sn in CB_STREAMS]
+            for si, (st, (sn, it)) in enumerate(watched):
                 if snap(st.query_ast) != sn:
                     return "query AST of stream %d changed after step %d (op %d on stream %d)" % (si, i, ops[i], pars[i])
                 if st.item_type != it:
